@@ -5,6 +5,8 @@
 //   real    <tcp|ipc|inproc> <seed> <actions>          several sockets/dialers/listeners, random closes/rejects
 //   redial  <tcp|ipc> <seed> <min> <max> <rounds>      a raw listener counts a dialer's attempts (virtual clock)
 //   hostile <tcp|ipc> <seed> <rounds>                  a raw client misbehaves; a control client must connect
+//   lrestart <tcp|ipc|inproc> <seed> <rounds>          a listener is closed and re-opened at the same address while
+//                                                      connects are queued on it / in handshake / established
 #ifndef WB_PIPEEV_REAL_H
 #define WB_PIPEEV_REAL_H
 
@@ -46,6 +48,7 @@ dump_log(void)
 		case 2: printf("M %d s%d %u\n", i, e->sock, e->pid); break;
 		case 3: printf("X %d s%d %u %d\n", i, e->sock, e->pid, e->ev); break;
 		case 4: printf("K %d s%d %u\n", i, e->sock, e->pid); break; // nng_pipe_close from the main thread
+		case 5: printf("B %d s%d %d\n", i, e->sock, e->ev); break;  // listener of s closed (ev 0) / re-opened (ev 1)
 		}
 	}
 	if (nev >= NLOG) printf("LOG-OVERFLOW\n");
@@ -664,6 +667,102 @@ scenario_waitleak(const char *tr)
 	return 0;
 }
 
+// ---------------------------------------------------------------- scenario: lrestart
+// A listener goes away and comes back at the same address while dialers are (a) queued on it -- their connect
+// arrived while the listener had no accept outstanding, because its accept callback sits in a slow ADD_PRE
+// callback of the previous connection --, (b) connected at the transport level / in the SP handshake, or
+// (c) fully connected.  Every dialer is open throughout: each of them must have a pipe to the NEW listener once
+// the larger reconnect time has passed on the virtual clock.
+static int
+scenario_lrestart(const char *tr, uint64_t seed, int rounds)
+{
+	static const int cfg[][2] = { { 10, 10 }, { 20, 0 }, { 5, 40 }, { 0, 0 }, { 30, 10 }, { 1, 100 } };
+	char url[96], addr[96];
+	rng_s = seed * 2654435761ULL + 4242;
+	int ci = rndn(6), rmin = cfg[ci][0], rmax = cfg[ci][1], bound = rmin > rmax ? rmin : rmax;
+	printf("P transport=%s seed=%llu min=%d max=%d bound=%d\n", tr, (unsigned long long) seed, rmin, rmax, bound);
+	for (int s = 0; s < 4; s++) {
+		if (nng_bus0_open(&socks[s]) != 0) return 3;
+		sock_open[s] = 1;
+		nng_socket_set_ms(socks[s], NNG_OPT_RECONNMINT, rmin);
+		nng_socket_set_ms(socks[s], NNG_OPT_RECONNMAXT, rmax);
+		for (int e = 1; e <= 3; e++) nng_pipe_notify(socks[s], (nng_pipe_ev) e, pipe_cb, (void *) (intptr_t) s);
+	}
+	for (int k = 0; k < rounds; k++) {
+		nng_listener l1, l2;
+		nng_dialer   dl[3];
+		int          variant = rndn(4); // 0,1: slow ADD_PRE (connects queue up); 2: no delay; 3: close at once
+		int          nb      = 1 + rndn(2);
+		int          l2rv    = -1;
+		mk_url(tr, 100 + k, url, sizeof(url));
+		if (nng_listener_create(&l1, socks[0], url) != 0 || nng_listener_start(l1, 0) != 0) {
+			printf("Q %d setup-failed\n", k);
+			continue;
+		}
+		listener_addr(tr, l1, url, addr, sizeof(addr));
+		pthread_mutex_lock(&ev_mtx);
+		cb_block_sock = 0;
+		cb_block_ms   = 100 + rndn(120);
+		cb_block_n    = variant <= 1 ? 1 : 0;
+		pthread_mutex_unlock(&ev_mtx);
+		int nd = 0;
+		if (nng_dialer_create(&dl[nd], socks[1], addr) == 0) {
+			nng_dialer_start(dl[nd], NNG_FLAG_NONBLOCK);
+			nd++;
+		}
+		if (variant != 3) msleep(10 + rndn(30));
+		for (int b = 0; b < nb; b++) {
+			if (nng_dialer_create(&dl[nd], socks[2 + b], addr) == 0) {
+				nng_dialer_start(dl[nd], NNG_FLAG_NONBLOCK);
+				nd++;
+			}
+		}
+		if (variant != 3) msleep(10 + rndn(50));
+		log_rec(0, 0, 0, 0, 0, 5);
+		nng_listener_close(l1); // (waits for the accept callback, i.e. for the slow ADD_PRE callback)
+		if (rndn(2)) msleep(rndn(25));
+		for (int i = 0; i < 200 && l2rv != 0; i++) {
+			l2rv = nng_listener_create(&l2, socks[0], addr);
+			if (l2rv == 0 && (l2rv = nng_listener_start(l2, 0)) != 0) nng_listener_close(l2);
+			if (l2rv != 0) msleep(5);
+		}
+		log_rec(0, 0, 1, 0, 0, 5);
+		uint64_t t0 = real_ms();
+		int      stable = 0, has[3] = { -1, -1, -1 };
+		while (l2rv == 0 && stable < 3 && real_ms() - t0 < 3000) {
+			int all = 1;
+			for (int i = 0; i < nd; i++) {
+				nni_dialer *d;
+				has[i] = -1;
+				if (nni_dialer_find(&d, (uint32_t) nng_dialer_id(dl[i])) != 0) continue;
+				has[i] = d->d_pipe != NULL;
+				if (!has[i]) all = 0;
+				nni_dialer_rele(d);
+			}
+			stable = all ? stable + 1 : 0;
+			if (!all) nng_verif_clock_advance((uint64_t) bound + 1);
+			msleep(4);
+		}
+		printf("Q %d variant=%d nb=%d l2rv=%d stable=%d waited=%llu", k, variant, nb, l2rv, stable, (unsigned long long) (real_ms() - t0));
+		for (int i = 0; i < nd; i++) printf(" d%d=%d", nng_dialer_id(dl[i]), has[i]);
+		printf("\n");
+		for (int i = 0; i < nd; i++) nng_dialer_close(dl[i]);
+		if (l2rv == 0) nng_listener_close(l2);
+		msleep(5);
+		if (l2rv == 0 && stable < 3) break; // one failing round is enough for the oracle
+	}
+	for (int s = 0; s < 4; s++) {
+		nng_socket_close(socks[s]);
+		log_rec(s, 0, 0, 0, 0, 1);
+		sock_open[s] = 0;
+	}
+	msleep(20);
+	pv_quiesce();
+	dump_log();
+	printf("lrestart-done\n");
+	return 0;
+}
+
 // hook H5 (named delay points on the create/close paths): seeded random sleeps widen the race windows
 extern void (*nng_verif_delay_hook)(int point, void *obj);
 static uint64_t dly_seed;
@@ -685,6 +784,7 @@ scenario_main(int argc, char **argv)
 		nng_verif_delay_hook = delay_hook;
 	}
 	if (argc >= 3 && strcmp(argv[1], "waitleak") == 0) return scenario_waitleak(argv[2]);
+	if (argc >= 5 && strcmp(argv[1], "lrestart") == 0) return scenario_lrestart(argv[2], strtoull(argv[3], NULL, 10), atoi(argv[4]));
 	if (argc >= 5 && strcmp(argv[1], "real") == 0) return scenario_real(argv[2], strtoull(argv[3], NULL, 10), atoi(argv[4]));
 	if (argc >= 7 && strcmp(argv[1], "redial") == 0)
 		return scenario_redial(argv[2], strtoull(argv[3], NULL, 10), atoi(argv[4]), atoi(argv[5]), atoi(argv[6]));
